@@ -80,7 +80,12 @@ TRUSTED = [
     "constructor domain of each class with assignments of its own (spec knowledge, not derivable from the code; a "
     "scaled field the table does not cover aborts the translation); classes that only forward inherit from members",
     "behaviour comparison: a fresh instance built from the same constructor arguments and scaled once is the reference "
-    "for `depends only on the last factor` (exact equality of ctx records and outputs under the same generator seed)",
+    "for `depends only on the last factor` (exact equality of ctx records and outputs under the same generator seed); the "
+    "fresh instance / the reference of a scheduled transform is ALWAYS built from ready-made objects (strip_via), also when "
+    "the instance under test was specified by config dicts / nested lists",
+    "expected schedule values are an independent evaluation of the schedule SPECIFICATION (schedule_values: number c -> "
+    "constant c, None -> b / max(1, n_batches - 1), list -> its entries, config dict -> built by kappaschedules directly); "
+    "transform.schedule is never read",
 ]
 ASSUMPTIONS = [
     "factors in [0, 1] (the public scale_strength asserts this)",
@@ -104,6 +109,16 @@ ASSUMPTIONS = [
     "and foreign scale_strength calls interleave is arbitrary.  An outer composition's factor does not reach the "
     "augmentation behind a scheduled member (the schedule wins at the next sample; observed on the real code, modelled "
     "as MSched -> no targets): a change of that behaviour shows up as model drift, not as a violation",
+    "ways of SPECIFYING things are part of the claim: a schedule may be handed to KDScheduledTransform as a kappaschedules "
+    "object, a config dict, a list of values, None (= the documented default: linear from 0 to 1) or a bare number (int / "
+    "float / bool; kappaschedules' shorthand for a constant schedule - 0, 0.0 and False mean `constant 0`, not `use the "
+    "default`), by a direct constructor call or through kappadata.factory.object_to_transform(dict(kind="
+    "'kd_scheduled_transform', ...)); members of KDComposeTransform / PatchwiseTransform / KDScheduledTransform (the "
+    "constructors that run object_to_transform) may be handed over as ready-made objects, config dicts or nested lists "
+    "(implicit composition), the root through the factory - all must behave like the object-built equivalent.  Classes the "
+    "factory cannot resolve by kind (not exported by kappadata.transforms: e.g. KDRandomRotation, KDTransformChoice) are "
+    "handed over as objects.  In the inter cases scheduled transforms are built by direct constructor calls only (the "
+    "factory deep-copies a config and would un-share the heap objects)",
     "MagnitudeSampler with magnitude_std = inf (uniform mode): magnitude_std is never read by sampling; its value "
     "(inf, or nan after factor 0) is not part of the claim and is shipped as 0",
     "KDGaussianBlur* have no identity setting: the weakest setting is the constant sigma = sigma_lb",
@@ -141,7 +156,12 @@ RULE = ("scale: every scaling class x 3 constructor-argument sets as a leaf (spy
         "call with the same schedule value as that scheduled transform's previous call on the copy while somebody "
         "else gave one of its objects a different factor in between; non-trivial = at least one scaling leaf and one factor strictly between "
         "0 and 1 (scale) / at least two workers or two batches (sched); distinct by (tree signature, factor pattern) / "
-        "(W, B, announced length, wrapped)")
+        "(W, B, announced length, wrapped); SPECIFICATION FORMS: a third of the random trees, 45% of the wrapped transforms of "
+        "sched cases and 30% of the inter heap objects are (partly) specified by config dicts / nested lists (sprinkle_via: any "
+        "node whose receiving constructor converts; root through the factory), every scaling class once as a factory config "
+        "and once as a config member of a composition; schedules: value tables, None, config dicts (with / without "
+        "arguments), numeric shorthands 0 / 0.0 / 1 / 1.0 / 0.5 / 0.25 / False / True / random, handed over raw (75%) or as "
+        "kappaschedules objects, KDScheduledTransform built directly or through the factory")
 
 _SCHEMA = None
 
@@ -339,28 +359,38 @@ def sched_case(rng, big=False, loader=0, mode=None):
     nb = expected_n_batches(init, B)
     if nb < 1:
         init, nb = {"updates": 3}, 3
-    sk = rng.choice(["custom", "custom", "custom", "default", "linear", "cosine", "const"])
+    # every way of SPECIFYING a schedule: value table, None (documented default ramp), config dicts (with and without
+    # arguments), numeric shorthands (int / float / bool, zero included)
+    sk = rng.choice(["custom", "custom", "default", "default", "linear", "cosine", "dict", "number", "number", "number"])
     if sk == "custom":
-        schedule = [rng.choice([0.0, 1.0, rng.random(), rng.random()]) for _ in range(nb)]
+        schedule = [rng.choice([0.0, 1.0, 0, 1, rng.random(), rng.random()]) for _ in range(nb)]
     elif sk == "default":
         schedule = None
     elif sk == "linear":
         schedule = {"kind": "linear_increasing_schedule"}
     elif sk == "cosine":
         schedule = {"kind": "cosine_increasing_schedule"}
+    elif sk == "dict":
+        lo, hi = sorted([rng.choice([0.0, 0.25, _r(rng, 0, 1)]), rng.choice([1.0, 0.75, _r(rng, 0, 1)])])
+        schedule = rng.choice([{"kind": "constant_schedule", "value": rng.choice([0.0, 0, 1.0, 0.5])},
+                               {"kind": "linear_increasing_schedule", "start_value": lo, "max_value": hi},
+                               {"kind": "cosine_decreasing_schedule"}, {"kind": "linear_decreasing_schedule"}])
     else:
-        schedule = rng.choice([0.0, 1.0, _r(rng, 0, 1)])
+        schedule = rand_number_schedule(rng)
     kind = "f"
     if rng.random() < 0.6:
         inner = leaf_spec(rng, rng.choice(FLOAT_OK), kind)
     else:
         inner = tree_spec(rng, 2, kind)
+    if rng.random() < 0.45:
+        inner = sprinkle_via(rng, inner, 0.5)
     full = nb * B
     n = full if (loader or rng.random() < 0.6) else rng.randint(1, full)
     if loader:
         n = min(n, 40 * B) // B * B or B
     return {"kind": "sched", "W": W, "B": B, "init": init, "schedule": schedule, "inner": inner, "input": kind,
-            "wrap": rng.random() < 0.3, "n": n, "loader": bool(loader), "xseed": rng.randrange(10 ** 6)}
+            "wrap": rng.random() < 0.3, "n": n, "loader": bool(loader), "xseed": rng.randrange(10 ** 6),
+            "form": rand_form(rng)}
 
 
 def _rand_init(rng, B, nb_target, big=False):
@@ -393,7 +423,7 @@ def _rand_schedule(rng, nb):
     if sk == "custom":
         return [rng.choice([0.0, 1.0, rng.random(), rng.random()]) for _ in range(nb)]
     if sk == "const":
-        return rng.choice([0.0, 1.0, 0.5, _r(rng, 0, 1)])
+        return rand_number_schedule(rng)
     if sk == "default":
         return None
     return {"kind": {"linear": "linear_increasing_schedule", "cosine": "cosine_increasing_schedule",
@@ -411,6 +441,7 @@ def inter_case(rng, big=False):
     J = rng.choice([1, 1, 2])
     inners = [leaf_spec(rng, rng.choice(FLOAT_OK), "f") if rng.random() < 0.75 else tree_spec(rng, 2, "f")
               for _ in range(J)]
+    inners = [sprinkle_via(rng, sp, 0.5) if rng.random() < 0.3 else sp for sp in inners]
     K = rng.choice([1, 2, 2, 2, 3])
     B0 = rng.choice([2, 2, 3, 4, 1])
     scheds = []
@@ -422,7 +453,10 @@ def inter_case(rng, big=False):
         if nb < 2:
             init, nb = {"updates": 3}, 3
         scheds.append({"targets": targets, "compose": len(targets) > 1 or rng.random() < 0.25, "B": B, "init": init,
-                       "schedule": _rand_schedule(rng, nb), "wrap": rng.random() < 0.2})
+                       "schedule": _rand_schedule(rng, nb), "wrap": rng.random() < 0.2,
+                       # direct constructor calls only: the factory deep-copies a config (objects inside it included),
+                       # which would un-share the heap objects
+                       "form": {**rand_form(rng), "ctor": "direct"}})
     outer = None
     if rng.random() < 0.4:
         outer = [["s", k] for k in range(K)] + [["i", j] for j in range(J) if rng.random() < 0.5]
@@ -466,9 +500,19 @@ def gen_cases(rng, tier):
             out.append(scale_case(rng, leaf_spec(rng, cls, kind), kind, probe=True))
     for name in PRESETS:
         out.append(scale_case(rng, {"c": "preset", "name": name}, "pil", probe=False))
-    for _ in range(150 if tier == "quick" else 1200):
+    for k in range(150 if tier == "quick" else 1200):
         kind = rng.choice(["f", "f", "pil"])
-        out.append(scale_case(rng, tree_spec(rng, rng.choice([1, 2, 2, 3]), kind), kind, probe=False))
+        spec = tree_spec(rng, rng.choice([1, 2, 2, 3]), kind)
+        # a third of the trees is specified (partly) by config dicts / nested lists, the root through the factory
+        out.append(scale_case(rng, sprinkle_via(rng, spec, rng.choice([0.3, 0.6, 1.0])) if k % 3 == 0 else spec, kind,
+                              probe=False))
+    # every scaling class once as a config dict through the factory, and as a config member of a direct composition
+    for cls in REG:
+        kind = "f" if cls in FLOAT_OK and (cls not in PIL_OK or rng.random() < 0.6) else "pil"
+        leaf = leaf_spec(rng, cls, kind)
+        out.append(scale_case(rng, {**leaf, "via": "cfg"}, kind, probe=True))
+        out.append(scale_case(rng, {"c": "KDComposeTransform", "k": [{**leaf, "via": "cfg"}, {"c": "opaque", "p": 0.5}],
+                                    "via": rng.choice(["obj", "cfg", "list"])}, kind, probe=False))
     for _ in range(120 if tier == "quick" else 700):
         out.append(sched_case(rng, big=(tier != "quick")))
     for _ in range(90 if tier == "quick" else 600):
@@ -504,20 +548,27 @@ def search_cases(rng, tier):
             for fs in rng.sample(SEARCH_SEQS, 3):
                 yield {"kind": "scale", "spec": nested, "input": kind, "factors": list(fs), "probe": False,
                        "xseed": 1 + r}
+                yield {"kind": "scale", "spec": sprinkle_via(rng, nested, rng.choice([0.5, 1.0])), "input": kind,
+                       "factors": list(fs), "probe": False, "xseed": 1 + r}
     for W in (1, 2, 3):
         for B in (1, 2, 3):
             c = sched_case(rng)
             c.update({"W": W, "B": B, "init": {"updates": 6}, "schedule": [0.0, 0.2, 0.4, 0.6, 0.8, 1.0], "n": 6 * B})
             yield c
+            for spec in (0, 0.0, 1, 0.5, None, False):
+                yield {**c, "schedule": spec, "form": {"schedule": "raw", "ctor": rng.choice(["direct", "factory"])}}
     for _ in range(3000):
         kind = rng.choice(["f", "pil"])
         yield scale_case(rng, tree_spec(rng, 2, kind), kind, probe=False)
+        yield scale_case(rng, sprinkle_via(rng, tree_spec(rng, 2, kind), 0.6), kind, probe=False)
         yield sched_case(rng, big=True)
         yield inter_case(rng)
 
 
 def shrink(case):
     if case.get("kind") == "scale":
+        if has_via(case["spec"]):
+            yield {**case, "spec": strip_via(case["spec"])}
         fs = case["factors"]
         for i in range(len(fs)):
             if len(fs) > 1:
@@ -527,6 +578,13 @@ def shrink(case):
         if case.get("probe"):
             yield {**case, "probe": False}
     elif case.get("kind") == "sched":
+        if has_via(case["inner"]):
+            yield {**case, "inner": strip_via(case["inner"])}
+        form = case.get("form") or {}
+        if form.get("ctor", "direct") != "direct":
+            yield {**case, "form": {**form, "ctor": "direct"}}
+        if form.get("schedule", "obj") != "obj":
+            yield {**case, "form": {**form, "schedule": "obj"}}
         if case["n"] > 1:
             yield {**case, "n": case["n"] // 2}
             yield {**case, "n": case["n"] - 1}
@@ -571,8 +629,12 @@ def _shrink_inter(case):
                    "steps": [st[:2] + [st[2] - (st[2] > j)] + st[3:] if st[0] == "scale" else st for st in steps],
                    "outer": None if case["outer"] is None else
                    [[m[0], m[1] - (m[0] == "i" and m[1] > j)] for m in case["outer"] if m != ["i", j]]}
+    if any(has_via(sp) for sp in case["inners"]):
+        yield {**case, "inners": [strip_via(sp) for sp in case["inners"]]}
     for k, sc in enumerate(case["scheds"]):
         for simpler in ([{**sc, "wrap": False}] if sc["wrap"] else []) + \
+                       ([{**sc, "form": {"schedule": "obj", "ctor": "direct"}}]
+                        if (sc.get("form") or {}) not in ({}, {"schedule": "obj", "ctor": "direct"}) else []) + \
                        ([{**sc, "compose": False}] if sc["compose"] and len(sc["targets"]) == 1 else []) + \
                        ([{**sc, "targets": sc["targets"][:1]}] if len(sc["targets"]) > 1 else []):
             yield {**case, "scheds": case["scheds"][:k] + [simpler] + case["scheds"][k + 1:]}
@@ -628,17 +690,63 @@ def _kw(kw):
     return out
 
 
-def build(spec):
+# constructors that run kappadata.factory.object_to_transform on what they are given (a member may be handed to them as a
+# config dict / nested list instead of a ready-made object); KDTransformChoice / KDRandomApply take objects only
+CONVERTING = ("KDComposeTransform", "PatchwiseTransform")
+
+
+def to_config(spec):
+    """the config dict (what a yaml file would hold) of a spec node; members of converting constructors are handed
+    over as their own `via` says, members of non-converting constructors as objects"""
     c = spec["c"]
     if c == "KDComposeTransform":
+        return {"kind": "kd_compose_transform", "transforms": [member_arg(k) for k in spec["k"]]}
+    if c == "KDTransformChoice":
+        return {"kind": "kd_transform_choice", "transforms": [build(k) for k in spec["k"]]}
+    if c == "KDRandomApply":
+        return {"kind": "kd_random_apply", "transform": build(spec["k"][0]), "p": spec["p"]}
+    if c == "PatchwiseTransform":
+        return {"kind": "patchwise_transform", "patch_size": spec["patch"], "transform": member_arg(spec["k"][0])}
+    if c == "opaque":
+        return {"kind": "kd_random_horizontal_flip", "p": spec["p"]}
+    return {"kind": _snake(c), **_kw(spec["kw"])}
+
+
+def factory_knows(c):
+    """can the factory resolve this class by `kind` (classes exported by kappadata.transforms)?  Others can only be
+    handed over as objects - `via` is ignored for them"""
+    import kappadata.transforms as KT
+    name = {"opaque": "KDRandomHorizontalFlip"}.get(c, c)
+    return hasattr(KT, name)
+
+
+def member_arg(spec):
+    """what is handed to a converting constructor for this member: the object (via absent / "obj"), its config dict
+    ("cfg"), or - compositions only - a plain nested list of its members ("list": the factory's implicit composition)"""
+    via = spec.get("via", "obj")
+    if via == "obj" or spec["c"] in ("foreign", "preset") or not factory_knows(spec["c"]):
+        return build({k: v for k, v in spec.items() if k != "via"})
+    if via == "list" and spec["c"] == "KDComposeTransform":
+        return [member_arg(k) for k in spec["k"]]
+    return to_config(spec)
+
+
+def build(spec):
+    """the real object of a spec; a ROOT with via "cfg" / "list" goes through the factory, otherwise the constructor
+    is called directly (members handed over as their own `via` says)"""
+    c = spec["c"]
+    if spec.get("via", "obj") != "obj" and c not in ("foreign", "preset") and factory_knows(c):
+        from kappadata.factory import object_to_transform
+        return object_to_transform(member_arg(spec))
+    if c == "KDComposeTransform":
         from kappadata.transforms.base.kd_compose_transform import KDComposeTransform
-        return KDComposeTransform([build(k) for k in spec["k"]])
+        return KDComposeTransform([member_arg(k) for k in spec["k"]])
     if c == "KDTransformChoice":
         return _cls(c)([build(k) for k in spec["k"]])
     if c == "KDRandomApply":
         return _cls(c)(build(spec["k"][0]), p=spec["p"])
     if c == "PatchwiseTransform":
-        return _cls(c)(patch_size=spec["patch"], transform=build(spec["k"][0]))
+        return _cls(c)(patch_size=spec["patch"], transform=member_arg(spec["k"][0]))
     if c == "foreign":
         return _identity_callable
     if c == "opaque":
@@ -647,6 +755,29 @@ def build(spec):
         import kappadata.common.transforms as CT
         return getattr(CT, spec["name"])()
     return _cls(c)(**_kw(spec["kw"]))
+
+
+def strip_via(spec):
+    """the same tree built from ready-made objects only (the reference every config-built tree is compared with)"""
+    out = {k: v for k, v in spec.items() if k != "via"}
+    if "k" in out:
+        out["k"] = [strip_via(k) for k in out["k"]]
+    return out
+
+
+def has_via(spec):
+    return spec.get("via", "obj") != "obj" or any(has_via(k) for k in spec.get("k", []))
+
+
+def sprinkle_via(rng, spec, p=0.5, root=True, parent_converts=True):
+    """marks nodes as handed over by config dict / nested list: only where the receiving constructor converts"""
+    out = dict(spec)
+    c = spec["c"]
+    if "k" in spec:
+        out["k"] = [sprinkle_via(rng, k, p, False, c in CONVERTING) for k in spec["k"]]
+    if parent_converts and c not in ("foreign", "preset") and rng.random() < p:
+        out["via"] = "list" if c == "KDComposeTransform" and rng.random() < 0.35 else "cfg"
+    return out
 
 
 def make_input(kind, seed):
@@ -1005,7 +1136,7 @@ def run_scale(case):
                 mp["ctx"] = [json.loads(r)[0].get(mp["ctx_key"]) if mp["ctx_key"] else None for r in rows]
                 st["mag"] = mp
         try:
-            fresh = build(case["spec"])
+            fresh = build(strip_via(case["spec"]))      # always built from ready-made objects
             fresh.scale_strength(f)
             fobs = observe(fresh)
             frows, _, _ = behaviour(fresh, x, seed, n_draws)
@@ -1072,6 +1203,52 @@ class _WorkerInfo:
 def _schedule_obj(cfg):
     from kappaschedules import object_to_schedule
     return object_to_schedule(copy.deepcopy(cfg))
+
+
+def _is_number(v):
+    return isinstance(v, (bool, int, float))
+
+
+def schedule_values(spec, nb):
+    """INDEPENDENT evaluation of a schedule SPECIFICATION (never read back from transform.schedule): a bare number c is
+    kappaschedules' shorthand for the constant schedule c (0 / 0.0 / False included); None is the documented default
+    `linear from 0 to 1` = b / max(1, nb - 1); a list of numbers is its own value table; a config dict is built by
+    kappaschedules directly"""
+    if _is_number(spec):
+        return [float(spec)] * nb
+    if spec is None:
+        return [b / max(1, nb - 1) for b in range(nb)]
+    if isinstance(spec, list) and all(_is_number(v) for v in spec):
+        return [float(spec[b]) for b in range(nb)]
+    indep = _schedule_obj(spec)
+    return [float(indep.get_value(b, nb)) for b in range(nb)]
+
+
+def schedule_arg(spec, form):
+    """what is handed to KDScheduledTransform(schedule=...): the specification itself (number / None / list / config
+    dict: form "raw") or the schedule object kappaschedules builds from it (form "obj"; None stays None)"""
+    if (form or {}).get("schedule", "obj") == "raw":
+        return copy.deepcopy(spec)
+    return _schedule_obj(spec)
+
+
+def make_scheduled(transform_arg, spec, form):
+    """KDScheduledTransform by a direct constructor call or through the factory (config dict, the yaml path)"""
+    sarg = schedule_arg(spec, form)
+    if (form or {}).get("ctor", "direct") == "factory":
+        from kappadata.factory import object_to_transform
+        return object_to_transform({"kind": "kd_scheduled_transform", "transform": transform_arg, "schedule": sarg})
+    from kappadata.transforms.base.kd_scheduled_transform import KDScheduledTransform
+    return KDScheduledTransform(transform_arg, schedule=sarg)
+
+
+def rand_form(rng):
+    return {"schedule": rng.choice(["raw", "raw", "raw", "obj"]), "ctor": rng.choice(["direct", "direct", "factory"])}
+
+
+def rand_number_schedule(rng):
+    """numeric shorthands: int and float zero / one, booleans, anything in between"""
+    return rng.choice([0, 0.0, 0, 0.0, 1, 1.0, 0.5, 0.25, False, True, _r(rng, 0, 1), _r(rng, 0, 1)])
 
 
 def _find_sched(t):
@@ -1232,9 +1409,12 @@ def run_sched(case):
     torch.manual_seed(case["xseed"])
     W, B, n = case["W"], case["B"], case["n"]
     try:
-        inner = build(case["inner"])
-        ref = copy.deepcopy(inner)
-        sched = KDScheduledTransform(inner, schedule=_schedule_obj(case["schedule"]))
+        # the wrapped transform is handed over as its `via` says (object / config dict / nested list), the schedule as
+        # case["form"] says; the reference is ALWAYS the object-built equivalent
+        targ = member_arg(case["inner"])
+        ref = build(strip_via(case["inner"]))
+        sched = make_scheduled(targ, case["schedule"], case.get("form"))
+        inner = sched.transform
         outer = KDComposeTransform([sched]) if case["wrap"] else sched
     except Exception as e:  # noqa
         return {"construct_error": f"{type(e).__name__}: {e}"}
@@ -1290,11 +1470,7 @@ def run_sched(case):
     nb = obs["n_batches"]
     obs["nb_torch"] = torch_n_batches(case["init"], B)
     try:
-        indep = _schedule_obj(case["schedule"])
-        if indep is None:
-            from kappaschedules import LinearIncreasingSchedule
-            indep = LinearIncreasingSchedule()
-        obs["values"] = [float(indep.get_value(b, nb)) for b in range(nb)]
+        obs["values"] = schedule_values(case["schedule"], nb)
     except Exception as e:  # noqa
         obs["values_error"] = f"{type(e).__name__}: {e}"
         obs["values"] = []
@@ -1338,12 +1514,12 @@ def run_inter(case):
     cfgs = case["scheds"]
     try:
         objs = [build(sp) for sp in case["inners"]]
-        refs = [copy.deepcopy(o) for o in objs]
+        refs = [build(strip_via(sp)) for sp in case["inners"]]
         scheds, callers = [], []
         for sc in cfgs:
             tg = sc["targets"]
             inner = objs[tg[0]] if len(tg) == 1 and not sc["compose"] else KDComposeTransform([objs[j] for j in tg])
-            s = KDScheduledTransform(inner, schedule=_schedule_obj(sc["schedule"]))
+            s = make_scheduled(inner, sc["schedule"], sc.get("form"))
             scheds.append(s)
             callers.append(KDComposeTransform([s]) if sc["wrap"] else s)
         outer = None
@@ -1379,11 +1555,7 @@ def run_inter(case):
     obs["values"] = []
     for k, sc in enumerate(cfgs):
         try:
-            indep = _schedule_obj(sc["schedule"])
-            if indep is None:
-                from kappaschedules import LinearIncreasingSchedule
-                indep = LinearIncreasingSchedule()
-            obs["values"].append([float(indep.get_value(b, obs["n_batches"][k])) for b in range(obs["n_batches"][k])])
+            obs["values"].append(schedule_values(sc["schedule"], obs["n_batches"][k]))
         except Exception as e:  # noqa
             obs["values_error"] = f"scheduled transform {k}: {type(e).__name__}: {e}"
             obs["values"].append([])
@@ -1671,14 +1843,17 @@ def oracle_scale(case, obs):
         if fr is not None:
             if "error" in fr:
                 return f"{sig}: constructing a second instance and scaling it by {f!r} raised {fr['error']}"
+            why = ("the result depends on earlier factors" if not has_via(case["spec"]) else
+                   "the result depends on earlier factors or on HOW the members were handed over (config dicts / nested "
+                   "lists vs. ready-made objects; the fresh instance is built from ready-made objects)")
             if not fr["bounds_equal"]:
                 return (f"{sig}: after factors {hist} the parameters differ from those of a freshly constructed "
-                        f"instance scaled by {f!r} only: the result depends on earlier factors")
+                        f"instance scaled by {f!r} only: {why}")
             if fr["diff"] is not None:
                 j, a, b = fr["diff"]
                 return (f"{sig}: after factors {hist} the transform does not behave like a freshly constructed one "
                         f"scaled by {f!r} only (same generator seed, same input): call {j} recorded/returned "
-                        f"{a[:300]} instead of {b[:300]}: the result depends on earlier factors")
+                        f"{a[:300]} instead of {b[:300]}: {why}")
     for i, a in enumerate(steps):
         for j, b in enumerate(steps):
             if i < j and a["f"] == b["f"]:
@@ -1730,7 +1905,11 @@ def oracle_mag(m):
 
 def oracle_sched(case, obs):
     W, B = case["W"], case["B"]
-    sig = f"KDScheduledTransform[{spec_sig(case['inner'])}] W={W} B={B} init={case['init']}"
+    form = case.get("form") or {}
+    sig = (f"KDScheduledTransform[{spec_sig(case['inner'])}] schedule={_sched_sig(case['schedule'])} (handed over as "
+           f"{'the specification itself' if form.get('schedule', 'obj') == 'raw' else 'a kappaschedules object'}, "
+           f"{'through the factory' if form.get('ctor', 'direct') == 'factory' else 'direct constructor call'}) "
+           f"W={W} B={B} init={case['init']}")
     exp_nb = expected_n_batches(case["init"], B)
     if "n_batches" in obs and (obs["n_batches"] != exp_nb or obs["n_batches"] != obs.get("nb_torch", exp_nb)):
         return (f"{sig}: n_batches = {obs['n_batches']}, the announced training length means {exp_nb} batches "
@@ -1936,6 +2115,9 @@ def coq_case(case, obs):
 # evidence
 # ---------------------------------------------------------------------------
 def spec_sig(spec):
+    via = spec.get("via", "obj")
+    if via != "obj":
+        return via + ":" + spec_sig({k: v for k, v in spec.items() if k != "via"})
     if spec["c"] in CONTAINERS:
         tag = {"KDComposeTransform": "", "KDTransformChoice": "Choice", "KDRandomApply": "RandomApply",
                "PatchwiseTransform": "Patchwise"}[spec["c"]]
@@ -1972,6 +2154,9 @@ def features(case, obs):
         yield "repeat=%s" % (len(set(fs)) < len(fs))
         yield "nonmonotone=%s" % (fs != sorted(fs))
         yield "root=" + case["spec"]["c"]
+        yield "built_from_configs=%s" % has_via(case["spec"])
+        if case["spec"].get("via", "obj") != "obj":
+            yield "root_via=" + case["spec"]["via"]
         if any("uniform" in st for st in obs.get("steps", [])):
             yield "uniform_spied"
         if _tree_ok(obs.get("tree0")) and not _trunc_safe(obs["tree0"], fs):
@@ -2013,6 +2198,12 @@ def features(case, obs):
         yield "wrap=%s" % case["wrap"]
         yield "schedule=" + (type(case["schedule"]).__name__ if not isinstance(case["schedule"], dict)
                              else case["schedule"]["kind"])
+        if _is_number(case["schedule"]) and not case["schedule"]:
+            yield "schedule=falsy_number"
+        form = case.get("form") or {}
+        yield "schedule_given_as=" + form.get("schedule", "obj")
+        yield "scheduled_built_by=" + form.get("ctor", "direct")
+        yield "wrapped_from_configs=%s" % has_via(case["inner"])
         yield "partial_run=%s" % (case["n"] < obs.get("n_batches", 0) * case["B"])
 
 
